@@ -939,3 +939,17 @@ MUTANTS += [
     T("c01-solver-drains-a-copy", ["C01", "C13"], SV,
       "            for asst in assts:\n                asst_identifier", "            assts = list(assts)\n            while assts:\n                asst = assts.pop(0)\n                asst_identifier"),
 ]
+
+_BOUND_OLD = ("            bound = (\n                self._objective._bounds[0]\n                if kind == \"min\"\n"
+              "                else self._objective._bounds[1]\n            )\n")
+_HORNER_OLD = ("            for i in range(len(self.coefficients) - 2, -1, -1):\n                if self.coefficients[i] != 0:\n"
+               "                    result += self.coefficients[i] * v\n                v = v * x\n")
+MUTANTS += [
+    # ---- spellings of the sixth twin round, with their wrong-polarity / wrong-offset neighbours ----
+    T("c07-bound-by-boolean-index", ["C07", "C15"], SV, _BOUND_OLD, "            bound = self._objective._bounds[kind != \"min\"]\n"),
+    B("c07-bound-by-boolean-index-swapped", ["C07", "C15"], SV, _BOUND_OLD, "            bound = self._objective._bounds[kind == \"min\"]\n"),
+    T("c08-horner-over-reversed-slice", ["C08"], FN, _HORNER_OLD,
+      "            for c in reversed(self.coefficients[:-1]):\n                if c != 0:\n                    result += c * v\n                v = v * x\n"),
+    B("c08-horner-over-reversed-slice-off-by-one", ["C08"], FN, _HORNER_OLD,
+      "            for c in reversed(self.coefficients[1:]):\n                if c != 0:\n                    result += c * v\n                v = v * x\n"),
+]
